@@ -214,6 +214,8 @@ impl Harness for Bf {
 struct Spfa {
     topo: Topo,
     src: usize,
+    /// weights restricted to 0..=B: no negative cycle can exist, so Ok with exact distances is the only right answer
+    nonneg: bool,
 }
 impl Spfa {
     fn go<Ty: EdgeType>(&self, cfg: &Config) -> Stats {
@@ -224,12 +226,12 @@ impl Spfa {
             || {
                 let w: Vec<SymI32> = wnames(t).iter().map(|n| SymI32::var(n)).collect();
                 for x in &w {
-                    assume(&format!("(and (<= (- {}) {}) (<= {} {}))", B, x.t(), x.t(), B));
+                    assume(&format!("(and (<= {} {}) (<= {} {}))", if self.nonneg { "0".to_string() } else { format!("(- {})", B) }, x.t(), x.t(), B));
                 }
                 build::<SymI32, Ty>(t, &w)
             },
             |g| {
-                let nc = negcycle_formula(t, Some(s), false);
+                let nc = if self.nonneg { "false".to_string() } else { negcycle_formula(t, Some(s), false) };
                 let reach = t.reach_from(s);
                 match spfa(g, NodeIndex::new(s), |e| *e.weight()) {
                     Err(_) => {
@@ -331,7 +333,7 @@ impl Spfa {
 }
 impl Harness for Spfa {
     fn name(&self) -> String {
-        format!("spfa/{}/s{}", self.topo.name(), self.src)
+        format!("spfa{}/{}/s{}", if self.nonneg { "_nonneg" } else { "" }, self.topo.name(), self.src)
     }
     fn bounds(&self) -> String {
         format!("n={} m={} weights i32 in [-{},{}], max()=i32::MAX, wrapping overflowing_add", self.topo.n, self.topo.m(), B, B)
@@ -553,6 +555,25 @@ impl Harness for Fw {
     }
 }
 
+/// U4 members (1-4 edges, loops allowed) with one or two edges doubled, in either orientation
+fn u4_parallel(seed: u64, count: usize) -> Vec<Topo> {
+    let base: Vec<Topo> = u4(true).into_iter().filter(|t| t.m() >= 1 && t.m() <= 4).collect();
+    let mut r = Rng::new(seed ^ 0x99);
+    let mut out = vec![];
+    for _ in 0..count {
+        let mut t = base[r.below(base.len() as u64) as usize].clone();
+        let d = 1 + r.below(2) as usize;
+        for _ in 0..d {
+            let e = t.edges[r.below(t.edges.len() as u64) as usize];
+            t.edges.push(if r.below(2) == 0 { e } else { (e.1, e.0) });
+        }
+        t.fam = "U4p".into();
+        t.id = format!("{}+{}", t.id, d);
+        out.push(t);
+    }
+    out
+}
+
 fn make(tier: &str, seed: u64) -> Vec<Box<dyn Harness>> {
     let thorough = tier == "thorough";
     let mut v: Vec<Box<dyn Harness>> = vec![];
@@ -566,8 +587,39 @@ fn make(tier: &str, seed: u64) -> Vec<Box<dyn Harness>> {
     topos.extend(if thorough { u } else { rotate_subset(u, seed, 16) });
     let ul: Vec<Topo> = u4(true).into_iter().filter(|t| t.m() >= 2 && t.m() <= 4).collect();
     topos.extend(rotate_subset(ul, seed, if thorough { 96 } else { 12 }));
+    // undirected multigraphs: parallel and antiparallel copies of an edge (the cheaper copy may come first or last)
+    topos.extend(u4_parallel(seed, if thorough { 80 } else { 24 }));
     if thorough {
         topos.push(k4());
+    }
+    // larger graphs with non-negative weights only: SPFA's visit bound must not fire without a negative cycle
+    {
+        // family R: seeded random digraphs on 5-8 nodes, 9-16 edges in random insertion order (parallel edges allowed), every node reachable from the source
+        let mut r = Rng::new(seed ^ 0xb16);
+        let count = if thorough { 3000 } else { 800 };
+        for k in 0..count {
+            let n = 5 + (k % 4);
+            // every node reachable from the source: a random arborescence first, then 5-9 extra edges (no loops)
+            let mut edges = vec![];
+            for b in 1..n {
+                edges.push((r.below(b as u64) as usize, b));
+            }
+            let extra = 5 + (r.below(5) as usize);
+            for _ in 0..extra {
+                let a = r.below(n as u64) as usize;
+                let b = r.below(n as u64) as usize;
+                if a != b {
+                    edges.push((a, b));
+                }
+            }
+            r.shuffle(&mut edges);
+            v.push(Box::new(Spfa { topo: Topo { fam: format!("R{}", n), id: format!("{}", k), n, directed: true, edges }, src: 0, nonneg: true }));
+        }
+        // the member on which the defect was first seen (kept as a fixed regression member)
+        v.push(Box::new(Spfa { topo: Topo { fam: "W6".into(), id: "min".into(), n: 6, directed: true, edges: vec![(0, 3), (0, 4), (1, 5), (4, 3), (3, 5), (4, 2), (2, 5), (2, 3), (3, 1), (0, 2), (0, 4)] }, src: 0, nonneg: true }));
+        if std::env::var("C11_BIG").is_ok() {
+            return v;
+        }
     }
     let mut rng = Rng::new(seed);
     for t in &topos {
@@ -575,7 +627,7 @@ fn make(tier: &str, seed: u64) -> Vec<Box<dyn Harness>> {
         for &s in &srcs {
             v.push(Box::new(Bf { topo: t.clone(), src: s }));
             if t.m() <= 7 {
-                v.push(Box::new(Spfa { topo: t.clone(), src: s }));
+                v.push(Box::new(Spfa { topo: t.clone(), src: s, nonneg: false }));
             }
         }
         if t.m() <= 6 {
